@@ -65,6 +65,8 @@ inductive SegErr
   | decodeTime
   /-- :179-182 `Failed to get MOOV box from init segment` -/
   | moovMissing
+  /-- `Sample duration is missing and the init segment has no trex box` (fix after 1951de2) -/
+  | trexMissing
   /-- :192 `pts >= 0` -/
   | ptsNegative
   /-- :193 pts seen twice -/
@@ -112,6 +114,8 @@ structure SegObs where
   senc : Option (Nat × Nat × Nat)
   /-- saio box: its offsets -/
   saio : Option (List Nat)
+  /-- some sample has neither its own duration nor a tfhd default (it needs `trex`) -/
+  needsTrex : Bool := false
   deriving Repr
 
 /-- what the Representation / options contribute to the checks of its segments -/
@@ -126,6 +130,8 @@ structure RepCtx where
   ivKnown : Bool
   /-- the init segment has a moov box (`get_moov()` is not None) -/
   hasMoov : Bool
+  /-- that moov has `mvex/trex` (a default sample duration is available) -/
+  hasTrex : Bool := true
   /-- `Representation.dash_timescale()` -/
   dashTs : Nat
   /-- `init_segment.media_timescale()`; `none` when the init segment was not parsed -/
@@ -229,6 +235,7 @@ def durErrs (c : RepCtx) (e : SegExp) (o : SegObs) : List SegErr :=
 /-- everything after the decode-time check (:179-218) -/
 def segTail (c : RepCtx) (e : SegExp) (o : SegObs) : List SegErr :=
   if ¬ c.hasMoov then [.moovMissing] else
+  if o.needsTrex ∧ ¬ c.hasTrex then [.trexMissing] else
   ptsLoop e.pto o.tfdt [] o.samples ++
     (if c.mediaTs = some 0 ∨ c.dashTs = 0 then [.zeroTimescale] else durErrs c e o)
 
@@ -253,6 +260,7 @@ def segResult (c : RepCtx) (o : SegObs) : SegRes :=
   if o.status ≠ wantStatus c then .none else
   if ¬ (parseData c o).2 then .none else
   if ¬ c.hasMoov then { seq := some o.seq, duration := Option.none, nextDecode := Option.none } else
+  if o.needsTrex ∧ ¬ c.hasTrex then { seq := some o.seq, duration := Option.none, nextDecode := Option.none } else
   -- duration is assigned before the zero-timescale return (:201-202)
   { seq := some o.seq,
     duration := some (if c.mediaTs = some 0 ∨ c.dashTs = 0 then sumDurs o.samples else obsDuration c o),
